@@ -219,6 +219,22 @@ CLAIMED.update({
     },
 })
 
+CLAIMED.update({
+    "C17": {
+        "text": "Machine-checked proof that the model of VmStack.serialize followed by the model of VmStack.deserialize "
+                "returns equal values in the same order for every stack of null, integers (64-bit form exactly for "
+                "-2^63 < z < 2^63, 257-bit form otherwise), cells, slices, builders, arbitrarily nested tuples and the "
+                "eight control-data-free continuation kinds; stack-list chaining per the schema. 'Serialising does not "
+                "consume the caller's values' is an aliasing property checked on the implementation (deep comparison "
+                "before/after, serialise twice), not proved in the functional model.",
+        "design_ref": "DESIGN.md 4.17",
+        "technique": "Coq proof by induction on fuel / nesting depth with tag-dispatch lemmas; correspondence by extracted "
+                     "OCaml model; purity by differential observation of the caller's objects",
+        "note": "4 theorems closed under the global context. Known finding F19 (VmControlData asymmetry: vmc_std / "
+                "vmc_envelope) is reported as KNOWN-FINDING and those two kinds are not modelled.",
+    },
+})
+
 PENDING_REASON = "check not built yet in this round (design in DESIGN.md section 4); not claimed until it exists"
 
 
